@@ -310,12 +310,78 @@ def scanner_obligations(ctx, rule_prefix: str = ""):
             _emit(ctx, P, "R5", "ABS", f, "limit test " + src(nnf(st.test, negate=negate) if len(disjuncts(cond)) == 1 else dj), truthy and cmp_ok,
                   f"with max_offset falsy the stop condition is {'false' if truthy else src(off) if isinstance(off, ast.AST) else off} (must be false: no limit); "
                   f"with max_offset truthy it is `{what}` (must be `<block start or match index> > max_offset`, strict)={cmp_ok}", st)
+    # a limit handed to the search as its end bound: hay.find(needle, start, E).  A match at buffer index p is found iff
+    # p + len(needle) <= E; it lies at file offset <position> - len(carry) + p.  "Every occurrence lying entirely before the
+    # limit is reported" therefore needs E >= max_offset - <position> + len(carry) whenever the limit applies, and no bound
+    # (None or at least the whole buffer) when it does not.  Decided on the polynomial E - (max_offset - pos + len(carry))
+    # with pos = len(carry) + t, t >= 0 (the carry is made of bytes read before <position>): all coefficients >= 0.
+    for c in s.finds:
+        eb = c.args[2] if len(c.args) > 2 else kwarg(c, "end")
+        if eb is None:
+            continue
+        ebi = inline(f.node, eb, stop=keep)
+        if not _mentions(ebi, s.ps[3]):
+            continue
+        n5 += 1
+        off = _value_under(ebi, s.ps[3], False)
+        on = _value_under(ebi, s.ps[3], True)
+        off_ok = (isinstance(off, ast.Constant) and off.value is None) or (isinstance(off, ast.Call) and dotted(off.func) == "len" and off.args and dotted(off.args[0]) == s.hay)
+        on_p = sympoly(on) if isinstance(on, ast.AST) else None
+        verdict, detail = None, ""
+        if on_p is not None and posvar:
+            need = SymPoly.atom(s.ps[3]) - SymPoly.atom(posvar) + SymPoly.atom(f"len({s.carry})")
+            D = on_p - need
+            # pos = len(carry) + t
+            coeff = {}
+            for k, v in D.terms.items():
+                coeff[k] = coeff.get(k, 0) + v
+            lin = {}
+            for k, v in coeff.items():
+                if len(k) > 1:
+                    lin = None
+                    break
+                lin[k[0] if k else ""] = v
+            if lin is not None:
+                cp = lin.pop(posvar, 0)
+                lin["<t>"] = lin.get("<t>", 0) + cp
+                lin[f"len({s.carry})"] = lin.get(f"len({s.carry})", 0) + cp
+                lin = {k: v for k, v in lin.items() if v != 0}
+                nonneg_atoms = {"<t>", f"len({s.carry})", f"len({s.ps[1]})", f"len({s.block})", f"len({s.hay})", s.ps[3], ""}
+                if all(k in nonneg_atoms for k in lin):
+                    if all(v >= 0 for v in lin.values()):
+                        verdict, detail = True, f"E - (max_offset - {posvar} + len({s.carry})) = {D} >= 0"
+                    elif all(v <= 0 for v in lin.values()):
+                        verdict, detail = False, f"E - (max_offset - {posvar} + len({s.carry})) = {D} < 0 whenever those terms are non-zero: occurrences ending in the last bytes before the limit are cut off"
+        if verdict is None:
+            ctx.undecided(("R8" if P.startswith("R8") else "R5"), "ABS", f, ("[R5] " if P.startswith("R8") else "") + "limit as end bound of find",
+                          f"end bound {src(eb)} (with the limit: {src(on) if isinstance(on, ast.AST) else on}) could not be compared with max_offset - position + len(carry)")
+        else:
+            _emit(ctx, P, "R5", "ABS", f, "limit as end bound of find", verdict and off_ok,
+                  detail + f"; without a limit the bound is {'absent / the whole buffer' if off_ok else src(off) if isinstance(off, ast.AST) else off}", c)
     d = param_defaults(f.node)
     _emit(ctx, P, "R5", "TABLE", f, "max_offset default", _c(d.get(s.ps[3])) == 0, f"default max_offset={src(d.get(s.ps[3]))} (0 = no limit)")
     seeks = [c for c in fn_calls(f.node) if isinstance(c.func, ast.Attribute) and c.func.attr == "seek"]
     ok = len(seeks) == 1 and dotted(seeks[0].args[0]) == s.ps[2] and guarded_by(ctx, f, seeks[0], lambda t: True if any(dotted(l) == s.ps[2] and isinstance(op, ast.IsNot) for l, op, r in compare_parts(t)) else None)
     _emit(ctx, P, "R3", "CURSOR", f, "fp.seek(start_offset)", bool(ok), "scan starts at start_offset when given, else at the current position" if ok else "start handling is not `if start_offset is not None: fp.seek(start_offset)`")
     return r1 and r3
+
+
+def _value_under(e: ast.AST, name: str, truthy: bool):
+    """Value-context counterpart of _under: conditional expressions / `name or d` chosen by the truth of `name`."""
+    for _ in range(4):
+        if isinstance(e, ast.IfExp):
+            t = _under(e.test, name, truthy)
+            if t is True:
+                e = e.body
+                continue
+            if t is False:
+                e = e.orelse
+                continue
+        if isinstance(e, ast.BoolOp) and isinstance(e.op, ast.Or) and len(e.values) == 2 and isinstance(e.values[0], ast.Name) and e.values[0].id == name:
+            e = e.values[0] if truthy else e.values[1]
+            continue
+        break
+    return e
 
 
 def _not_none_choice(ctx, f, e):
